@@ -140,6 +140,29 @@ pub struct WriterCfg {
     pub one: bool,
     pub werr: Option<usize>,
     pub wzero: Option<usize>,
+    /// `wflush=ok|err|pend`, `wclose=ok|err|pend`: what `poll_flush` / `poll_close` answer (`pend` never wakes).
+    pub flush: SideCall,
+    pub close: SideCall,
+}
+
+#[derive(Clone, Copy, PartialEq, Eq)]
+pub enum SideCall {
+    Ok,
+    Err,
+    Pend,
+}
+
+impl SideCall {
+    fn answer(self) -> Poll<io::Result<()>> {
+        match self {
+            SideCall::Ok => Poll::Ready(Ok(())),
+            SideCall::Err => Poll::Ready(Err(io::Error::new(
+                io::ErrorKind::NotConnected,
+                "mock flush/close error",
+            ))),
+            SideCall::Pend => Poll::Pending,
+        }
+    }
 }
 
 pub struct WriterState {
@@ -261,10 +284,12 @@ impl AsyncWrite for MockWriter {
     }
 
     fn poll_flush(self: Pin<&mut Self>, _cx: &mut Context<'_>) -> Poll<io::Result<()>> {
-        Poll::Ready(Ok(()))
+        let flush = self.state.borrow().cfg.flush;
+        flush.answer()
     }
 
     fn poll_close(self: Pin<&mut Self>, _cx: &mut Context<'_>) -> Poll<io::Result<()>> {
-        Poll::Ready(Ok(()))
+        let close = self.state.borrow().cfg.close;
+        close.answer()
     }
 }
